@@ -59,6 +59,22 @@ theorem fireOne_pres {P : WM → Prop} (hp : Pres P) (e : Engine) (a : Act) (he 
             · exact h1
           · exact h1
 
+theorem incSkip_wm : ∀ (k : Nat) (e : Engine),
+    (C07.incSkip firePop Engine.skips k e).2.wm = e.wm ∧ (C07.incSkip firePop Engine.skips k e).2.rules = e.rules := by
+  intro k
+  induction k with
+  | zero => intro e; exact ⟨rfl, rfl⟩
+  | succ k ih =>
+    intro e
+    simp only [C07.incSkip, firePop]
+    cases e.ag.getNext.1 with
+    | none => exact ⟨rfl, rfl⟩
+    | some a =>
+      simp only
+      split
+      · exact ih _
+      · exact ⟨rfl, rfl⟩
+
 theorem fireLoop_pres {P : WM → Prop} (hp : Pres P) : ∀ (fuel : Nat) (e : Engine) (out : List Firing),
     P e.wm → P (fireLoop fuel e out).1.wm := by
   intro fuel
@@ -66,15 +82,17 @@ theorem fireLoop_pres {P : WM → Prop} (hp : Pres P) : ∀ (fuel : Nat) (e : En
   | zero =>
     intro e out he
     unfold fireLoop
-    simp only [firePop]
-    cases e.ag.getNext.1 <;> exact he
+    have hw := (incSkip_wm e.ag.acts.length e).1
+    rcases hsk : C07.incSkip firePop Engine.skips e.ag.acts.length e with ⟨_ | a, e'⟩ <;>
+      (rw [hsk] at hw; simp only at hw ⊢; rw [hw]; exact he)
   | succ n ih =>
     intro e out he
     unfold fireLoop
-    simp only [firePop]
-    cases e.ag.getNext.1 with
-    | none => exact he
-    | some a => exact ih _ _ (fireOne_pres hp _ a he)
+    have hw := (incSkip_wm e.ag.acts.length e).1
+    rcases hsk : C07.incSkip firePop Engine.skips e.ag.acts.length e with ⟨_ | a, e'⟩
+    · rw [hsk] at hw; simp only at hw ⊢; rw [hw]; exact he
+    · rw [hsk] at hw; simp only at hw ⊢
+      exact ih _ _ (fireOne_pres hp _ a (by rw [hw]; exact he))
 
 theorem step_pres {P : WM → Prop} (hp : Pres P) (e : Engine) (op : Op) (he : P e.wm) : P (e.step op).1.wm := by
   cases op with
@@ -231,18 +249,15 @@ theorem fireLoop_firings (P : Firing → Prop)
   | zero =>
     intro e out ho
     unfold fireLoop
-    simp only [firePop]
-    cases e.ag.getNext.1 <;> exact ho
+    rcases C07.incSkip firePop Engine.skips e.ag.acts.length e with ⟨_ | a, e'⟩ <;> exact ho
   | succ n ih =>
     intro e out ho
     unfold fireLoop
-    simp only [firePop]
-    cases e.ag.getNext.1 with
-    | none => exact ho
-    | some a =>
-      simp only
+    rcases C07.incSkip firePop Engine.skips e.ag.acts.length e with ⟨_ | a, e'⟩
+    · exact ho
+    · simp only
       apply ih
-      cases hr : (Engine.fireOne { e with ag := e.ag.getNext.2 } a).2 with
+      cases hr : (Engine.fireOne e' a).2 with
       | none => exact ho
       | some y =>
         intro x hx
@@ -251,7 +266,7 @@ theorem fireLoop_firings (P : Firing → Prop)
         | inl h1 => exact ho x h1
         | inr h1 =>
           subst h1
-          exact hP _ (Engine.fireOne { e with ag := e.ag.getNext.2 } a).1 a x (by rw [← hr])
+          exact hP _ (Engine.fireOne e' a).1 a x (by rw [← hr])
 
 theorem fireLoop_length : ∀ (fuel : Nat) (e : Engine) (out : List Firing),
     (fireLoop fuel e out).2.length ≤ out.length + fuel := by
@@ -260,18 +275,15 @@ theorem fireLoop_length : ∀ (fuel : Nat) (e : Engine) (out : List Firing),
   | zero =>
     intro e out
     unfold fireLoop
-    simp only [firePop]
-    cases e.ag.getNext.1 <;> simp
+    rcases C07.incSkip firePop Engine.skips e.ag.acts.length e with ⟨_ | a, e'⟩ <;> simp
   | succ n ih =>
     intro e out
     unfold fireLoop
-    simp only [firePop]
-    cases e.ag.getNext.1 with
-    | none => simp
-    | some a =>
-      simp only
+    rcases C07.incSkip firePop Engine.skips e.ag.acts.length e with ⟨_ | a, e'⟩
+    · simp
+    · simp only
       refine Nat.le_trans (ih _ _) ?_
-      cases (Engine.fireOne { e with ag := e.ag.getNext.2 } a).2 <;> simp <;> omega
+      cases (Engine.fireOne e' a).2 <;> simp <;> omega
 
 /-! ### the working-memory invariant: handles unique and below next_id, the type index lists exactly the live facts -/
 
